@@ -53,16 +53,14 @@ Publish(k, tag) ==
         /\ IF live /\ ~withheld
              THEN /\ out' = <<Frame(k, off, id, IF DeltaOn THEN prev ELSE 0, cl.held[k], FALSE)>>
                   /\ cl' = [cl EXCEPT !.held[k] = id, !.pos = off]
-             ELSE /\ out' = <<>>
-                  /\ cl' = IF live THEN [cl EXCEPT !.pos = off] ELSE cl
+             ELSE /\ out' = <<>> /\ UNCHANGED cl      \* a withheld publication does not move the client's position
   /\ UNCHANGED <<filt, live, nsub>>
   /\ step' = [act |-> "Publish", k |-> k, tag |-> tag, id |-> npub + 1]
 
 \* the removal publication carries the tags of the removed entry
 Remove(k) ==
   /\ st[k] # 0 /\ npub < MaxPub /\ npub' = npub + 1
-  /\ LET off == Len(log) + 1
-         tag == (CHOOSE i \in 1..Len(log) : log[i].id = st[k]).tag  IN
+  /\ LET off == Len(log) + 1 IN
      LET t == log[CHOOSE i \in 1..Len(log) : log[i].id = st[k]].tag
          withheld == Filtered(t) /\ (Withhold \/ ~DeltaOn)
      IN /\ st' = [st EXCEPT ![k] = 0]
@@ -70,7 +68,7 @@ Remove(k) ==
         /\ IF live /\ ~withheld
              THEN /\ out' = <<Frame(k, off, 0, 0, cl.held[k], TRUE)>>
                   /\ cl' = [cl EXCEPT !.held[k] = 0, !.pos = off]
-             ELSE /\ out' = <<>> /\ cl' = IF live THEN [cl EXCEPT !.pos = off] ELSE cl
+             ELSE /\ out' = <<>> /\ UNCHANGED cl
   /\ UNCHANGED <<filt, live, nsub>>
   /\ step' = [act |-> "Remove", k |-> k]
 
